@@ -185,6 +185,10 @@ def run(prop, tier, seed, t0):
     q = tier == 'quick'
     cfgs = plan.ALL_CFGS
     bins, notes, failed = plan.bins_for(cfgs, ('rel',))
+    # the same driver as one codegen unit with fat LTO: dead-store elimination sees across what are separate units in the
+    # default release build (a plain memset before a free survives there and disappears here)
+    bins2, notes2, failed2 = plan.bins_for(['simd'] if q else ['simd', 'serial64', 'serial32', 'avx512'], ('cg1',))
+    bins, notes, failed = bins + bins2, notes + notes2, failed + failed2
     if failed:
         return plan.fail_build(prop, failed)
     cb = plan.dispatch_variants(bins)
@@ -213,5 +217,5 @@ def run(prop, tier, seed, t0):
                             'for 8-byte windows of the secret and its derived forms; (zeroize) explicit zeroisation results; '
                             'distinct = distinct (op,args)',
                        required_classes=REQUIRED,
-                       assumptions=['release profile; stack copies and registers are out of scope',
+                       assumptions=['release profile and a single-codegen-unit fat-LTO profile; stack copies and registers are out of scope',
                                     'heap buffers whose content depends only on points are by construction not flagged'] + notes)
